@@ -37,6 +37,9 @@ class Sess:
         self.upgrade_completed = False
         self.pongs = []
         self.pings = []
+        self.want_upgrade = None
+        self.eager_with_pending_poll = False
+        self.upgrade_done_clk = None
 
 
 class Runner:
@@ -51,6 +54,7 @@ class Runner:
         self.posts = []
         self.log = []                 # action log for witnesses
         self.harvested = set()
+        self.up_issue = {}            # uid -> clock at which it was issued
 
     # ----------------------------------------------------------- recording
     def _msg_id(self, data):
@@ -108,6 +112,12 @@ class Runner:
             if tk.packets is not None:
                 self._deliver(s, tk.packets, 'poll', 'p%d' % id(tk),
                               tk.c_start, tk.c_end, tk.t_end)
+        ws = getattr(s, 'want_upgrade', None)
+        if ws is not None and not [p for p in s.polls if not p.done]:
+            s.want_upgrade = None
+            if not ws.client_closed and not s.gone:
+                ws.send('5')
+                self._complete_upgrade(s, ws)
         if s.autopoll and not s.gone and tk.code == 200 and \
                 s.mode == 'polling' and tk.packets and \
                 not any(p[0] in (1,) for p in tk.packets):
@@ -123,11 +133,20 @@ class Runner:
             return
         if not established:
             # frames on the upgrade socket before completion
+            script = getattr(ws, 'script', None)
             if s.up_state == 'started' and frame == '3probe' and \
-                    getattr(ws, 'script', None) == 'correct':
+                    script in ('correct', 'eager'):
                 s.up_state = 'probed'
-                ws.send('5')
-                self._complete_upgrade(s, ws)
+                pending = [p for p in s.polls if not p.done]
+                if script == 'correct' and pending:
+                    # like real clients: pause polling, i.e. wait for the
+                    # in-flight poll (released by the NOOP) before UPGRADE
+                    s.want_upgrade = ws
+                else:
+                    if pending:
+                        s.eager_with_pending_poll = True
+                    ws.send('5')
+                    self._complete_upgrade(s, ws)
             elif s.up_state == 'started' and frame == '3probe':
                 s.up_state = 'probed'
             if frame != '3probe':
@@ -141,6 +160,7 @@ class Runner:
     def _complete_upgrade(self, s, ws):
         s.up_state = 'done'
         s.upgrade_completed = True
+        s.upgrade_done_clk = self.sim.tick()
         s.ws = ws
         s.mode = 'websocket'
         ws.established = True
@@ -193,6 +213,7 @@ class Runner:
     def up_payload(self, s, kind):
         s.nup += 1
         uid = 'U%d.%d' % (s.n, s.nup)
+        self.up_issue[uid] = self.sim.tick()
         if kind == 'text':
             return uid, uid + '|t', '4' + uid + '|t'
         if kind == 'json':
@@ -224,7 +245,7 @@ class Runner:
         ws.on_frame = lambda c, fr: self._on_frame(
             s, c, fr, getattr(c, 'established', False))
         self.log.append(('upgrade_start', s.n, script))
-        if script == 'correct':
+        if script in ('correct', 'eager'):
             ws.send('2probe')
         return ws
 
@@ -248,6 +269,11 @@ class Runner:
         c0 = tk.c_start
         for x in ([s] if s else self.S):
             self.causes.append({'s': x.n, 'cause': 'server disconnect',
+                                'c_start': c0, 'ticket': tk,
+                                't': self.sim.now})
+        if s is None:
+            # also covers sessions that connect before the call returns
+            self.causes.append({'s': '*', 'cause': 'server disconnect',
                                 'c_start': c0, 'ticket': tk,
                                 't': self.sim.now})
         self.log.append(('disconnect', s.n if s else None))
